@@ -1,1 +1,36 @@
-fn main(){}
+//! interner-sim <seed> <runs> [max_ops]   — argv only (works under `cargo +nightly miri run`)
+//! interner-sim plan "<encoded ops>"
+use interner_sim::{decode, encode, execute, generate};
+
+fn main() {
+	let args: Vec<String> = std::env::args().collect();
+	if args.len() >= 3 && args[1] == "plan" {
+		let ops = decode(&args[2]);
+		let out = execute(&ops);
+		for e in &out.events {
+			println!("{e}");
+		}
+		if let Some((o, d)) = out.violation {
+			println!("VIOLATION property=C18 oracle={o} detail={d}");
+			std::process::exit(1);
+		}
+		return;
+	}
+	let seed: u64 = args.get(1).and_then(|s| s.parse().ok()).unwrap_or(1);
+	let runs: u64 = args.get(2).and_then(|s| s.parse().ok()).unwrap_or(10);
+	let max_ops: usize = args.get(3).and_then(|s| s.parse().ok()).unwrap_or(40);
+	let mut handovers = 0;
+	let mut steps = 0;
+	for r in 0..runs {
+		let ops = generate(seed.wrapping_mul(0x9e37_79b9_7f4a_7c15).wrapping_add(r), max_ops, true);
+		let out = execute(&ops);
+		handovers += out.handovers;
+		steps += ops.len();
+		if let Some((o, d)) = out.violation {
+			println!("plan: {}", encode(&ops));
+			println!("VIOLATION property=C18 oracle={o} detail={d}");
+			std::process::exit(1);
+		}
+	}
+	println!("interner-sim: {runs} histories, {steps} operations, {handovers} hand-overs, no violation");
+}
